@@ -245,6 +245,55 @@ def run(ctx):
                         if e > tolr:
                             ctx.fail('dm_then_minus_dm_does_not_restore', inp, impl=e, model=tolr)
 
+    # ---- an infinite reference frequency (delays relative to infinite frequency: 1 / ref_freq = 0): the chirp is exp(-2 pi i K DM / f),
+    # every delay is non-negative for DM > 0 and the crop follows from them; the result must be finite and equal to the oracle filter
+    for c in range(12 if ctx.tier == 'quick' else 120):
+        N = rng.choice([32, 48, 64, 81])
+        nchan = rng.choice([1, 2])
+        cdt = rng.choice([np.complex64, np.complex128])
+        rate = rng.choice([1.0, 8.0, 16.0]) * u.MHz
+        cf = rng.choice([327.0, 800.0, 1400.0]) * u.MHz
+        x = (nprng.standard_normal((N, nchan)) + 1j * nprng.standard_normal((N, nchan))).astype(cdt)
+        z = pb.BasebandSignal(x, sample_rate=rate, center_freq=cf, start_time=Time('2021-03-04T05:06:07.5', precision=9))
+        rq, fmin, fmax = X.hz(rate), X.hz(z.min_freq), X.hz(z.max_freq)
+        inf_delay = lambda dmq, f: K * dmq * Fraction(10 ** 12) / (f * f)
+        spread = rng.choice([0.3, 2.5, N / 6])
+        dmv = float(spread / float(inf_delay(Fraction(1), fmin) * rq)) * rng.choice([-1, 1])
+        dm, dq = pb.DM(dmv), Fraction(dmv)
+        ref = rng.choice([np.inf * u.MHz, np.inf * u.Hz, (np.inf * u.GHz)])
+        inp = dict(cls='BasebandSignal', nchan=nchan, N=N, dtype=np.dtype(cdt).name, rate=str(rate), cf=str(cf), ref='infinite', dm=dmv)
+        ctx.seen(inp); ctx.count('coherent'); ctx.count('ref:infinite')
+        try:
+            y = pb.coherent_dedispersion(z, dm, ref_freq=ref)
+            chirp = np.asarray(dm.chirp_from_signal(z, ref_freq=ref))
+        except Exception as e:
+            ctx.fail('infinite_reference_raised', inp, impl=repr(e))
+            continue
+        dtop, dbot = inf_delay(dq, fmax) * rq, inf_delay(dq, fmin) * rq
+        if any(abs(d - round(d)) < Fraction(1, 10 ** 9) * (1 + abs(d)) for d in (dtop, dbot)):
+            continue
+        start_w, stop_w = math.ceil(-min(0, dtop, dbot)), N - math.ceil(max(0, dtop, dbot))
+        H = np.empty((N, nchan), dtype=np.complex128)
+        for i, cfq in enumerate(X.hz(f) for f in z.channel_freqs):
+            for k in range(N):
+                ph = K * dq * Fraction(10 ** 12) / bin_freq(cfq, N, k, rq)          # cycles: K DM f (0 - 1/f)^2 in MHz units
+                H[k, i] = np.exp(-2j * np.pi * float(ph - math.floor(ph)))
+        tolc = 1.2e-7 + 2 * math.pi * 2.0 ** -50 * float(abs(K * dq * Fraction(10 ** 12) / fmin)) * 4
+        if not np.all(np.isfinite(chirp)) or float(np.max(np.abs(chirp.reshape(N, nchan) - H))) > tolc:
+            ctx.fail('chirp_transfer_function', inp, impl='infinite reference: chirp not finite / not exp(-2 pi i K DM / f)')
+            continue
+        want = np.fft.ifft(np.fft.fft(x.astype(np.complex128), axis=0) * H, axis=0)[max(0, start_w):max(0, stop_w)]
+        got = np.asarray(y.data)
+        if got.shape != want.shape:
+            ctx.fail('crop_length', inp, impl=len(y), model=dict(start=start_w, stop=stop_w))
+            continue
+        tolv = (2e-5 if cdt is np.complex64 else 1e-6) * (float(np.max(np.abs(x))) + 1e-30) * 4
+        if want.size and not (float(np.max(np.abs(got - want))) <= tolv):
+            ctx.fail('dedispersed_values', inp, impl='infinite reference: values differ from the oracle filter (or are not finite)')
+            continue
+        if abs(X.sec(y.start_time) - (X.sec(z.start_time) + Fraction(max(0, start_w)) / rq)) > Fraction(1, 10 ** 9):
+            ctx.fail('crop_start_time', inp)
+
     res = ctx.run_cases(HEADER, items, shard=max(100, len(items) // 32 + 1))
     if res is None:
         return
